@@ -88,8 +88,10 @@ class World:
                 os.remove(p)
             return p
         os.makedirs(os.path.dirname(p), exist_ok=True)
-        with open(p, "wb") as f:
+        tmp = p + ".verifnew"
+        with open(tmp, "wb") as f:      # replace, never write in place: hard-linked copies on other nodes must not change
             f.write(data)
+        os.replace(tmp, p)
         return p
 
     def copy(self, file, node, has="Y", wants="Y", on_disk="auto", ready=True, size_b="auto"):
